@@ -98,8 +98,8 @@ def run_transform(case, expr):
     def held(v):
         import scipy.sparse as sp
 
-        if inp == "int":
-            return v.astype("int64")
+        if inp in ("int", "int8", "int16"):
+            return v.astype("int64" if inp == "int" else inp)
         if inp == "sparse":
             return sp.csc_matrix(v.reshape(-1, 1))
         if inp == "series":
@@ -131,8 +131,8 @@ def run_transform(case, expr):
     fn = TRANSFORMS[case["fn"]]
     kw = dict(case.get("flags", {}))
     if case["fn"] == "poly":
-        a = fn(x, case["degree"], raw=case["raw"], _state=state)
-        b = fn(xn, case["degree"], raw=case["raw"], _state=state)
+        a = fn(held(x), case["degree"], raw=case["raw"], _state=state)
+        b = fn(held(xn), case["degree"], raw=case["raw"], _state=state)
     else:
         a = fn(held(x), **kw, _state=state)
         b = fn(held(xn), **kw, _state=state)
@@ -218,8 +218,15 @@ def gen_poly(rng: random.Random, tier: str) -> dict:
     s = float(np.std(x)) or 1.0
     m = float(np.mean(x))
     xn = [m + s * rng.uniform(-1.5, 1.5) for _ in range(rng.choice([1, 4, 9]))]
+    inp = "array"
+    if not nan_rows and rng.random() < 0.3:  # whole numbers held in a (small) integer dtype: powers are those of the numbers
+        xi = [float(round(v)) for v in x]
+        if len(set(xi)) > degree and max(abs(v) for v in xi) <= 120:
+            x, xn, inp = xi, [float(round(v)) for v in xn], rng.choice(["int8", "int16", "int"])
+        elif len(set(xi)) > degree and max(abs(v) for v in xi) < 2 ** 31:
+            x, xn, inp = xi, [float(round(v)) for v in xn], "int"
     return {"fn": "poly", "degree": degree, "raw": raw, "x": x, "xnew": xn, "nan_rows": nan_rows, "dec": dec, "off": off,
-            "path": rng.choice(["mm", "mm", "direct", "direct", "mm_quoted"])}
+            "path": rng.choice(["mm", "mm", "direct", "direct", "mm_quoted"]), "input": inp}
 
 
 def judge_poly(case) -> Outcome:
